@@ -369,60 +369,99 @@ def recursive_wiring(ctx, ev):
     R.rule("C09-D4 recursive wiring", 8, "child = (own bytes, own config, own name, inherited script/KMS/alg/context); signed bottom-up; stored back under its name")
     init = repo.func(CMD, "RecursiveSigner.__init__")
     fq = ctx.fq(init)
-    ctor = None
-    for n in ast.walk(init.node):
-        if isinstance(n, ast.Call) and isinstance(n.func, ast.Name) and n.func.id == "RecursiveSigner":
-            ctor = n
-    if ctor is None:
-        raise AnalysisError(f"{fq}: child construction not found")
-    loop = None
-    for n in ast.walk(init.node):
-        if isinstance(n, ast.For) and any(x is ctor for x in ast.walk(n)):
-            loop = n
-    if loop is None or not isinstance(loop.target, ast.Name):
-        raise AnalysisError(f"{fq}: dependency loop not recognised")
-    d = loop.target.id
-    args = [ast.unparse(a) for a in ctor.args]
-    R.check("C09-D4 recursive wiring", ast.unparse(loop.iter) == "envelope_json['dependencies']", "children = the names listed in the configuration",
-            mod=init.module, node=loop, function=fq, expected="for dep in envelope_json['dependencies']", found=ast.unparse(loop.iter))
-    want = [f"self._load_dependency({d})", f"envelope_json['dependencies'][{d}]", d, "self.sign_script", "self.kms_script", "self.alg", "self.context"]
-    for i, (w, nme) in enumerate(zip(want, ["envelope", "envelope_json", "envelope_name", "sign_script", "kms_script", "algorithm", "context"])):
-        got = args[i] if i < len(args) else None
-        R.check("C09-D4 recursive wiring", got == w, f"child parameter {nme}", mod=init.module, node=ctor, function=fq, expected=w,
-                found=f"{got}", key_extra=nme)
+    A = lambda n: App("attr:" + n, (SELF,))
+    ev0 = Evaluator(repo, inline_depth=0)
+    iouts = [o for o in ev0.outcomes(init) if o.kind == "return"]
+    DEPS = App("idx", (P("envelope_json"), Const("dependencies")))
+
+    def loops_with_ctor(effs, found):
+        for e in effs:
+            if not isinstance(e, App):
+                continue
+            if e.op == "eff:if":
+                loops_with_ctor(e.args[1].args, found)
+                loops_with_ctor(e.args[2].args, found)
+            elif e.op == "eff:loop":
+                for x in all_effects(e.args[1].args):
+                    if isinstance(x, App) and x.op == "eff:call" and isinstance(x.args[0], App) and x.args[0].op == "new" \
+                            and isinstance(x.args[0].args[0], Ref) and x.args[0].args[0].obj is init.cls:
+                        if not any(f_[0] == e.args[0] and f_[1] == x.args[0] for f_ in found):
+                            found.append((e.args[0], x.args[0], e))
+    sites = []
+    for o in iouts:
+        loops_with_ctor(o.effects, sites)
+    if len(sites) != 1:
+        raise AnalysisError(f"{fq}: dependency loop not recognised ({len(sites)} construction sites of the child signer inside a loop)")
+    it, ctor, loop = sites[0]
+    # the loop walks the configured dependencies: by name, or by (name, configuration) pairs
+    if it in (DEPS, App("meth:keys", (DEPS,))):
+        d, cfgs = App("elem", (it,)), [App("idx", (DEPS, App("elem", (it,))))]
+    elif it == App("meth:items", (DEPS,)):
+        d = App("unpack", (App("elem", (it,)), Const(0), Const(2)))
+        cfgs = [App("unpack", (App("elem", (it,)), Const(1), Const(2))), App("idx", (DEPS, d))]
+    else:
+        d, cfgs = None, []
+    R.check("C09-D4 recursive wiring", d is not None, "children = the names listed in the configuration",
+            mod=init.module, node=loop.node or init.node, function=fq, expected="for dep in envelope_json['dependencies'] (or its items())", found=repr(it)[:160])
+    args = [a_ for a_ in ctor.args[2:] if not (isinstance(a_, App) and a_.op == "kw")]
+    kws = {a_.args[0].v: a_.args[1] for a_ in ctor.args[2:] if isinstance(a_, App) and a_.op == "kw"}
+    names = ["envelope", "envelope_json", "envelope_name", "sign_script", "kms_script", "algorithm", "context"]
     params = init.params()[1:]
-    R.check("C09-D4 recursive wiring", params[:7] == ["envelope", "envelope_json", "envelope_name", "sign_script", "kms_script", "algorithm", "context"],
+    if d is not None:
+        ld_fi = repo.func(CMD, "RecursiveSigner._load_dependency")
+        want = {"envelope": [App("call", (Ref("func", ld_fi), SELF, d))], "envelope_json": cfgs, "envelope_name": [d], "sign_script": [A("sign_script")],
+                "kms_script": [A("kms_script")], "algorithm": [A("alg")], "context": [A("context")]}
+        for nme in names:
+            # the argument that reaches the parameter of this name (by position in the constructor's own parameter list, or by keyword)
+            got = kws.get(nme)
+            if got is None and nme in params and params.index(nme) < len(args):
+                got = args[params.index(nme)]
+            R.check("C09-D4 recursive wiring", got in want[nme], f"child parameter {nme}", mod=init.module, node=ctor.node or init.node, function=fq,
+                    expected=repr(want[nme][0])[:160], found=repr(got)[:160], key_extra=nme)
+    R.check("C09-D4 recursive wiring", params[:7] == names,
             "constructor parameter order", mod=init.module, node=init.node, function=fq, expected="(envelope, envelope_json, envelope_name, sign_script, kms_script, algorithm, context)",
             found=f"{params}")
     # resolved attributes are assigned before children are built (children inherit the resolved values)
-    src_lines = {}
-    for n in ast.walk(init.node):
-        if isinstance(n, ast.Attribute) and isinstance(n.ctx, ast.Store) and isinstance(n.value, ast.Name) and n.value.id == "self":
-            src_lines.setdefault(n.attr, []).append(n.lineno)
-    late = [a for a in ("sign_script", "kms_script", "alg", "context") if any(l > loop.lineno for l in src_lines.get(a, []))]
+    late = set()
+    for o in iouts:
+        for seq in flatten_effects(o.effects):
+            entered = False
+            for e in seq:
+                if isinstance(e, App) and e.op == "eff:loop_enter" and e.args[0] == it:
+                    entered = True
+                if entered and isinstance(e, App) and e.op == "eff:setattr" and e.args[0] == SELF and isinstance(e.args[1], Const) \
+                        and e.args[1].v in ("sign_script", "kms_script", "alg", "context"):
+                    late.add(e.args[1].v)
     R.check("C09-D4 recursive wiring", not late, "inherited attributes are final before children are constructed", mod=init.module,
-            node=loop, function=fq, expected="no assignment to sign_script/kms_script/alg/context after the dependency loop", found=f"{late}")
+            node=loop.node or init.node, function=fq, expected="no assignment to sign_script/kms_script/alg/context after the dependency loop", found=f"{sorted(late)}")
 
-    R.rule("C09-D4b own key, bottom-up, same name", 5, "_sign uses the node's own key; dependencies are signed and re-embedded before the node signs")
-    sg = repo.func(CMD, "RecursiveSigner._sign")
-    so = [o for o in ev.outcomes(sg) if o.kind == "return"]
-    calls = [e.args[0] for o in so for e in all_effects(o.effects) if isinstance(e, App) and e.op == "eff:call"
-             and isinstance(e.args[0], App) and e.args[0].op == "meth:sign_envelope"]
-    A = lambda n: App("attr:" + n, (SELF,))
+    R.rule("C09-D4b own key, bottom-up, same name", 5, "the node signs with its own key; dependencies are signed and re-embedded before the node signs")
+    rs = repo.func(CMD, "RecursiveSigner.recursive_sign")
+    # private helpers of the class (the signing step) are followed, so that the call of the signer is seen wherever it is written
+    ev = Evaluator(repo, inline_depth=2, inline_filter=lambda f: f.cls is rs.cls and f is not rs and f.name.startswith("_") and not f.name.startswith("__")
+                   and f.name != "_load_dependency")
+    so = [o for o in ev.outcomes(rs) if o.kind == "return"]
+    calls = []
+    for o in so:
+        for e in all_effects(o.effects):
+            if isinstance(e, App) and e.op == "eff:call" and isinstance(e.args[0], App) and e.args[0].op == "meth:sign_envelope" and e.args[0] not in calls:
+                calls.append(e.args[0])
     want = (A("signer"), A("envelope"), A("key_name"), A("key_id"), A("alg"), A("context"), A("kms_script"), A("already_signed_action"))
     R.check("C09-D4b own key, bottom-up, same name", len(calls) == 1 and tuple(calls[0].args) == want,
-            "signer.sign_envelope(own envelope, own key name, own key id, alg, context, kms script, action)", mod=sg.module, node=sg.node,
-            function=ctx.fq(sg), expected="positional order of SuitEnvelopeSignerBase.sign_envelope", found=repr(calls)[:300])
+            "signer.sign_envelope(own envelope, own key name, own key id, alg, context, kms script, action)", mod=rs.module, node=rs.node,
+            function=ctx.fq(rs), expected="positional order of SuitEnvelopeSignerBase.sign_envelope", found=repr(calls)[:300])
     base = repo.cls("suit_generator.suit_sign_script_base", "SuitEnvelopeSignerBase").methods["sign_envelope"]
     R.check("C09-D4b own key, bottom-up, same name", base.params()[1:] == ["input_envelope", "key_name", "key_id", "algorithm", "context", "kms_script", "already_signed_action"],
             "interface parameter order", mod=base.module, node=base.node, function=ctx.fq(base),
             expected="(input_envelope, key_name, key_id, algorithm, context, kms_script, already_signed_action)", found=f"{base.params()[1:]}")
-    stored = [e for o in so for e in all_effects(o.effects) if isinstance(e, App) and e.op == "eff:setattr" and e.args[1] == Const("envelope")]
+    stored = []
+    for o in so:
+        for e in all_effects(o.effects):
+            if isinstance(e, App) and e.op == "eff:setattr" and e.args[1] == Const("envelope") and e not in stored:
+                stored.append(e)
     R.check("C09-D4b own key, bottom-up, same name", len(stored) == 1 and calls and stored[0].args[2] == calls[0], "the signed envelope replaces the node's envelope",
-            mod=sg.module, node=sg.node, function=ctx.fq(sg), expected="self.envelope = signer.sign_envelope(...)", found=repr(stored)[:160])
-    rs = repo.func(CMD, "RecursiveSigner.recursive_sign")
-    ro = [o for o in ev.outcomes(rs) if o.kind == "return"]
-    ro = generic.sole_outcome(ctx, ro, "recursive_sign: expected one outcome")
+            mod=rs.module, node=rs.node, function=ctx.fq(rs), expected="self.envelope = signer.sign_envelope(...)", found=repr(stored)[:160])
+    ro = generic.sole_outcome(ctx, so, "recursive_sign: expected one outcome")
     o = ro[0]
     dep = App("elem", (A("dependencies"),))
     child = App("meth:recursive_sign", (dep,))
@@ -432,31 +471,34 @@ def recursive_wiring(ctx, ev):
     R.check("C09-D4b own key, bottom-up, same name", ok, "each signed dependency is re-embedded (re-encoded) under the name it was loaded from",
             mod=rs.module, node=rs.node, function=ctx.fq(rs), expected="envelope.value[dep.envelope_name] = cbor2.dumps(dep.recursive_sign())",
             found=repr(st)[:300])
+
+    def is_sign(e):
+        return isinstance(e, App) and e.op == "eff:call" and isinstance(e.args[0], App) and e.args[0].op == "meth:sign_envelope"
     order_ok, omit_ok, store_unguarded = True, False, True
     for seq in flatten_effects(o.effects):
         idx_store = [i for i, e in enumerate(seq) if isinstance(e, App) and e.op == "eff:store"]
-        idx_sign = [i for i, e in enumerate(seq) if isinstance(e, App) and e.op == "eff:call" and isinstance(e.args[0], App)
-                    and e.args[0].op == "call" and isinstance(e.args[0].args[0], Ref) and e.args[0].args[0].obj.name == "_sign"]
+        idx_sign = [i for i, e in enumerate(seq) if is_sign(e)]
         if idx_store and idx_sign and max(idx_store) > min(idx_sign):
             order_ok = False
     for e, g in _with_guards(o.effects):
-        if isinstance(e, App) and e.op == "eff:call" and isinstance(e.args[0], App) and e.args[0].op == "call" \
-                and isinstance(e.args[0].args[0], Ref) and e.args[0].args[0].obj.name == "_sign":
+        if is_sign(e):
             omit_ok = g == ((A("omit_signing"), False),)
         if isinstance(e, App) and e.op == "eff:store" and g:
             store_unguarded = False
     omit_ok = omit_ok and store_unguarded
-    R.check("C09-D4b own key, bottom-up, same name", order_ok and omit_ok and o.value == A("envelope"),
+    final_env = o.heap.get((SELF, "envelope"))
+    ret_ok = o.value == A("envelope") or (final_env is not None and o.value == final_env)
+    R.check("C09-D4b own key, bottom-up, same name", order_ok and omit_ok and ret_ok,
             "dependencies first; omit-signing guards only the node's own signature; the node's envelope is returned", mod=rs.module,
-            node=rs.node, function=ctx.fq(rs), expected="for dep …: store; if not omit_signing: _sign(); return envelope",
-            found=f"order ok={order_ok}, omit guards only _sign={omit_ok}")
+            node=rs.node, function=ctx.fq(rs), expected="for dep …: store; if not omit_signing: sign; return envelope",
+            found=f"order ok={order_ok}, omit guards only the signing={omit_ok}, returns the node's envelope={ret_ok}")
 
 
 def config_key_discipline(ctx):
     """C09-D5: a configuration key whose presence is only conditionally enforced is never read unconditionally."""
     R = ctx.report
     repo = ctx.repo
-    R.rule("C09-D5 omit-signing needs no key", 9, "every read envelope_json[k] is guarded by a membership test on k that holds on all paths reaching it")
+    R.rule("C09-D5 omit-signing needs no key", 8, "every read envelope_json[k] is guarded by a membership test on k that holds on all paths reaching it")
     init = repo.func(CMD, "RecursiveSigner.__init__")
     fq = ctx.fq(init)
     cfg = "envelope_json"
@@ -510,8 +552,9 @@ def config_key_discipline(ctx):
                 reads.append((r, r.slice.value in guarded or _guarded_in_expr(s, r, cfg)))
 
     visit(init.node.body, set())
-    if len(reads) < 9:
-        raise AnalysisError(f"{fq}: only {len(reads)} configuration reads recognised")
+    keys_read = {r.slice.value for r, _ in reads}
+    if len(keys_read) < 8:
+        raise AnalysisError(f"{fq}: only {len(keys_read)} configuration keys read by subscript recognised ({sorted(keys_read)})")
     for r, ok in reads:
         k = r.slice.value
         R.check("C09-D5 omit-signing needs no key", ok, f"read of {k!r}", mod=init.module, node=r, function=fq,
